@@ -39,8 +39,6 @@ m = {
     "not_applicable": na,
     "notes": "Verdict protocol: exit 0 held / 1 VIOLATION (replayed on the real code, or no-failing-input-found) / 2 undecided / 3 checker error. Known findings: known_findings.json.",
 }
-if not na:
-    del m["not_applicable"]
 json.dump(m, open(os.path.join(HERE, "MANIFEST.json"), "w"), indent=1)
 import jsonschema
 jsonschema.validate(m, json.load(open("/root/.vp/MANIFEST.schema.json")))
